@@ -9,6 +9,7 @@ from . import api, front
 from . import ty as T
 
 IGNORED_CALL_ROOTS = {"logger", "logging"}
+SPEC_AXIOMS = {}
 
 
 class CallMixin:
@@ -562,7 +563,12 @@ class CallMixin:
         tys = [T.parse_type(t) for t in s.arg_types]
         rty = T.parse_type(s.ret_type)
         sorts = [x for t in tys for x in flat_sorts(t)]
-        f = z3.RecFunction("spec_" + s.name, *(sorts + [sort_of(rty)]))
+        import os
+        axiom_mode = os.environ.get("PYVC_SPEC_MODE", "axiom") == "axiom"
+        if axiom_mode:
+            f = z3.Function("spec_" + s.name, *(sorts + [sort_of(rty)]))
+        else:
+            f = z3.RecFunction("spec_" + s.name, *(sorts + [sort_of(rty)]))
         s.z3fn = f
         consts = [z3.Const("%s_a%d" % (s.name, k), so) for k, so in enumerate(sorts)]
         rest = list(consts)
@@ -572,7 +578,12 @@ class CallMixin:
             body = self.spec_body(front.strip_doc(s.node.body), st)
         finally:
             self.spec_depth -= 1
-        z3.RecAddDefinition(f, consts, pack(coerce(body, rty)))
+        if axiom_mode:
+            # definitional axiom, instantiated by E-matching on applications of f (Boogie style)
+            app = f(*consts)
+            SPEC_AXIOMS[s.name] = z3.ForAll(consts, app == pack(coerce(body, rty)), patterns=[app])
+        else:
+            z3.RecAddDefinition(f, consts, pack(coerce(body, rty)))
 
     def spec_body(self, stmts, st):
         if not stmts:
